@@ -49,6 +49,17 @@ def cases(rng, tier):
         yield rvgen.sim_case(rng, "five", hazard=False, opts={"wide": i % 4 == 0}, trace=40, run=600, dprob=0.3, iprob=0.2, suite="sim-five-nohazard")
     for i in range(120 if tier == "quick" else 2500):
         yield padded_case(rng)
+    # deterministic schedules with the interlock off: faults next to producers / consumers / ecalls, ecall-rich programs
+    # (arguments set up one and two slots before the call are NOT yet visible), discarded-result instructions
+    for prog, regs in rvgen.fault_schedule_programs():
+        lines = rvgen.header("five", False, "-", "-", prog, regs, []) + ["sim.snap"]
+        for _ in range(14):
+            lines += ["sim.step", "sim.snap"]
+        lines += ["sim.run 200", "sim.snap"]
+        yield Case("sim-five-nohazard", lines, None, {"mode": "five", "hazard": False, "prog": prog, "regs": regs, "pokes": [], "d": "-", "i": "-"})
+    for i in range(30 if tier == "quick" else 400):
+        yield rvgen.ecall_case(rng, "five", hazard=False, trace=30, run=300, suite="sim-five-nohazard")
+        yield rvgen.x0_dest_case(rng, "five", hazard=False, trace=20, run=300, suite="sim-five-nohazard")
 
 
 def nontrivial(c):
